@@ -306,3 +306,13 @@ package k8s
 //@   ensures [C01,C14] block: res1 == nil ==> (res0 != nil && (forall a int :: {ipset(res0)[a]} ipset(res0)[a] ==
 //@         (cidrSet(cidr)[a] && !(exists k int :: 0 <= k && k < len(except) && cidrSet(except[k])[a]))))
 //@   ensures [C01] failed: res1 != nil ==> res0 == nil
+
+// ---------------------------------------------------------------------------------------------
+// Selectors on real peers are decided by apimachinery alone (lsMatch of A-labels): every spelling goes the same way (C14, C01)
+// ---------------------------------------------------------------------------------------------
+
+//@ func (*NetworkPolicy).selectorsMatch
+//@   requires np != nil && np.NetworkPolicy != nil
+//@   modifies *
+//@   ensures [C14,C01] real: (!isPeerRepresentative && err == nil) ==> (selectorsMatch == lsMatch(ruleSelector, peerLabels) && lsValid(ruleSelector))
+//@   ensures [C14,C01] invalid: (!isPeerRepresentative && !lsValid(ruleSelector)) ==> err != nil
